@@ -59,6 +59,7 @@ type caseT struct {
 
 type addL struct { // ledger entry: an executed atomic add
 	Tid, Ev   int
+	Op        int // index of the record operation in the goroutine's program
 	Amt       int64
 	Now       int64 // the recorder's timestamp
 	At        int   // event index at which the add executed
@@ -296,7 +297,7 @@ func (r *runner) run(i int) int {
 		o := r.c.Progs[i][t.op]
 		after := r.arr.VerifSlots()
 		k := r.idx(t.now)
-		r.tr.Adds = append(r.tr.Adds, addL{Tid: i, Ev: o.Ev, Amt: o.Amt, Now: t.now, At: pos,
+		r.tr.Adds = append(r.tr.Adds, addL{Tid: i, Op: t.op, Ev: o.Ev, Amt: o.Amt, Now: t.now, At: pos,
 			SlotStart: before[k][0], Credited: after[k][1+o.Ev]-before[k][1+o.Ev] == o.Amt})
 	}
 	// operation finished?
@@ -515,6 +516,17 @@ func monitor(c caseT, tr *traceT, rep *emit.Report) {
 			}
 			fail("expired_invisible", sig, fmt.Sprintf("goroutine %d read %d of event %d at %d; amounts recorded in its window or later: %d (recorded in total: %d)", rd.Tid, rd.Ret, rd.Ev, rd.Now, vis, all))
 		}
+	}
+	// no update duplicated: one record operation executes its atomic add once (the ledger below is built
+	// from the executed adds, so a second add of the same operation would otherwise count as "recorded")
+	seenAdd := map[[2]int]bool{}
+	for _, a := range tr.Adds {
+		k := [2]int{a.Tid, a.Op}
+		if seenAdd[k] {
+			fail("no_invention", "update-duplicated", fmt.Sprintf("goroutine %d: its record operation %d (amount %d of event %d, timestamp %d) executed its atomic add twice", a.Tid, a.Op, a.Amt, a.Ev, a.Now))
+			break
+		}
+		seenAdd[k] = true
 	}
 	// right bucket: with more than one bucket an amount goes to the slot whose start is the recorder's own bucket start
 	for _, a := range tr.Adds {
@@ -828,7 +840,7 @@ func main() {
 	a := cli.Parse()
 	root := rng.New(a.Seed)
 	rep := emit.NewReport("C09", a.Seed, a.Tier)
-	rep.Rule = "random: n in 1..4 buckets x bl in {1,10,100,500,1000} ms, creation at a bucket boundary -1/0/+1/mid, optional filled array and a jump of up to 2 intervals, 2-3 goroutines x 1-2 record/read operations, up to 3 ticks (1, bl-1, bl, bl+1, interval, ...) placed by the random scheduler; scripted: the D7 interleaving for every parking position inside the reset; thorough: all interleavings of the listed small configurations. Non-trivial = at least two goroutines had operations in progress at the same time and a bucket was rolled over (a TryLock succeeded) during the schedule; distinct by executed schedule. parallel (search only): 4-16 real goroutines recording 500-2000 amounts each with timestamps on both sides of a bucket boundary (n >= 2 buckets; array created at the older bucket, or more than an interval earlier so that the racing recorders roll both slots over); per-bucket counters and the two window reads compared with the per-goroutine ledgers."
+	rep.Rule = "random: n in 1..4 buckets x bl in {1,10,100,500,1000} ms, creation at a bucket boundary -1/0/+1/mid, optional filled array and a jump of up to 2 intervals, 2-3 goroutines x 1-2 record/read operations, up to 3 ticks (1, bl-1, bl, bl+1, interval, ...) placed by the random scheduler; scripted: the D7 interleaving for every parking position inside the reset; thorough: all interleavings of the listed small configurations. Non-trivial = at least two goroutines had operations in progress at the same time and a bucket was rolled over (a TryLock succeeded) during the schedule; distinct by executed schedule. parallel (search only): 4-16 real goroutines recording 500-2000 amounts each with timestamps on both sides of a bucket boundary (n >= 2 buckets; array created at the older bucket, or more than an interval earlier so that the racing recorders roll both slots over); per-bucket counters and the two window reads compared with the per-goroutine ledgers (exactly without rollover, as upper bounds with it); 8-16 goroutines recording one amount each at the same instant into a bucket whose slot is stale, for thousands of consecutive buckets: the bucket never holds more than was recorded for it."
 	nCorr := a.Pick(a.N, 260, 2500)
 	nMon := a.Pick(a.Mon, 3000, 40000)
 	if a.Search {
@@ -910,7 +922,11 @@ func main() {
 	}
 	if a.Only >= 0 {
 		if a.Only >= parBase && a.Only < corpusBase {
-			parLeg(root, rep, 0, a.Only, 30*time.Second)
+			if a.Only >= raceBase {
+				raceLeg(root, rep, 0, a.Pick(0, 8000, 60000), a.Only, 30*time.Second)
+			} else {
+				parLeg(root, rep, 0, a.Only, 30*time.Second)
+			}
 			for _, f := range rep.MonitorFailures {
 				fmt.Printf("MONITOR-FAIL clause=%s signature=%s %s\n", f.Clause, f.Signature, f.Detail)
 			}
@@ -943,6 +959,7 @@ func main() {
 	}
 	// real-thread search leg around a bucket boundary (par.go): bounded by counts, at most 4 s (quick) / 60 s (thorough)
 	parLeg(root, rep, a.Pick(0, 6, 120), -1, time.Duration(a.Pick(0, 4, 60))*time.Second)
+	raceLeg(root, rep, a.Pick(0, 4, 40), a.Pick(0, 8000, 60000), -1, time.Duration(a.Pick(0, 5, 120))*time.Second)
 	if a.Tier == "thorough" && !a.Search {
 		total := 0
 		complete := true
